@@ -14,6 +14,7 @@ import (
 	"runtime"
 	"strconv"
 	"strings"
+	"sync"
 	"time"
 )
 
@@ -22,9 +23,12 @@ var (
 	vNameCount = map[string]int{}
 	vFailures  []string
 	vClock     time.Duration
+	vMu        sync.Mutex // harness goroutines draw inputs and record failures concurrently
 )
 
 func vLoadModel() {
+	vMu.Lock()
+	defer vMu.Unlock()
 	if vModel != nil {
 		return
 	}
@@ -47,11 +51,15 @@ func vLoadModel() {
 }
 
 func vResetReplay() {
+	vMu.Lock()
+	defer vMu.Unlock()
 	vNameCount = map[string]int{}
 	vFailures = nil
 }
 
 func vUniq(name string) string {
+	vMu.Lock()
+	defer vMu.Unlock()
 	n := vNameCount[name]
 	vNameCount[name] = n + 1
 	if n == 0 {
@@ -139,11 +147,15 @@ func vAssume(c bool) {
 
 func vAssert(c bool, msg string) {
 	if !c {
-		vFailures = append(vFailures, msg)
+		vFail(msg)
 	}
 }
 
-func vFail(msg string)    { vFailures = append(vFailures, msg) }
+func vFail(msg string) {
+	vMu.Lock()
+	vFailures = append(vFailures, msg)
+	vMu.Unlock()
+}
 func vReach(label string) {}
 
 // vSynctest is set by the replay driver when the harness runs inside a
